@@ -1,7 +1,8 @@
 (** StorageLayout::new (Model/Layout.v) accepts exactly the configurations the extension
     documents allow (Model/LayoutSpec.v parse) and reads the documented parameter
-    values, outside the known classes of KnownC11.v. *)
-From Rocfl Require Import Base.Bytes Generated.Consts Model.Layout Model.LayoutSpec Model.KnownC11
+    values (no known class is left: a missing delimiter of 0007 and a missing config.json
+    mean the defaults since fix dec6d3f, a JSON array is refused since fix 8478633). *)
+From Rocfl Require Import Base.Bytes Generated.Consts Model.Layout Model.LayoutSpec
   Proofs.BytesFacts Proofs.LayoutFacts Proofs.LayoutMapFacts.
 From Coq Require Import ZArith Lia ZifyBool ZifyN ZifyNat.
 Ltac Zify.zify_post_hook ::= Z.div_mod_to_equations.
@@ -125,10 +126,25 @@ Qed.
 
 (** delimiter of 0006 (no default) *)
 Lemma delim_view6 v :
-  (exists d, get_delim v = Ok d /\
+  (exists d, get_delim v None = Ok d /\
      delim_param None v = match us_chars d with [] => None | _ => Some d end) \/
-  (get_delim v = Err /\ delim_param None v = None).
+  (get_delim v None = Err /\ delim_param None v = None).
 Proof. destruct v; cbn [get_delim delim_param]; eauto. Qed.
+
+(** delimiter of 0007: the serde default of the code (layout.rs:190, 814-816) is the
+    documents' default ":" *)
+Lemma delim_view7 v : jv_wf v = true ->
+  (exists d, get_delim v (Some default_delimiter) = Ok d /\ ustr_wf d = true /\
+     delim_param (Some colon) v = match us_chars d with [] => None | _ => Some d end) \/
+  (get_delim v (Some default_delimiter) = Err /\ delim_param (Some colon) v = None).
+Proof.
+  destruct v as [|n|s|x|]; cbn [get_delim delim_param jv_wf]; intros W.
+  - left. exists default_delimiter. repeat split; reflexivity.
+  - right. split; reflexivity.
+  - left. exists s. split; [reflexivity|]. split; [exact W|reflexivity].
+  - right. split; reflexivity.
+  - right. split; reflexivity.
+Qed.
 
 Lemma validate_bad_name dbg c : ext_eqb (c_name c) (c_ext c) = false -> validate dbg c = Err.
 Proof. intros H. unfold validate. now rewrite H. Qed.
@@ -281,17 +297,14 @@ Proof.
 Qed.
 
 Lemma new_obj_0007 dbg o : raw_wf (RawObj o) = true -> cfg_determined E0007 (RawObj o) = true ->
-  known_c11_cfg E0007 (RawObj o) = false ->
   new_agrees (new dbg E0007 (RawObj o)) (parse E0007 (RawObj o)).
 Proof.
   intros W D. apply raw_wf_delim in W. cbn [cfg_determined] in D. apply negb_true_iff in D.
-  unfold known_c11_cfg, c11_cfg_0007_defaults, c11_cfg_array.
-  rewrite !orb_false_r. intros Kd.
   unfold new, parse, Layout.parse_obj, LayoutSpec.parse_obj.
   rewrite (get_ext_present E0007) by exact D.
   destruct (name_view E0007 (r_ext o)) as [[Hn Hg] | [Hn [Hg | (e' & Hg & He')]]]; rewrite Hn, Hg; cbn [negb res_bind].
-  - destruct (r_delim o) as [|n|s|x|]; cbn [get_delim delim_param res_bind opt_bind]; try exact I; [discriminate|].
-    cbn [jv_wf] in W. pose proof (wf_delim_empty_iff s W) as [I1 I2].
+  - destruct (delim_view7 _ W) as [(s & Hd & Ws & Hd') | [Hd Hd']]; rewrite Hd, Hd'; cbn [res_bind opt_bind]; [|exact I].
+    pose proof (wf_delim_empty_iff s Ws) as [I1 I2].
     destruct (num_view (r_ts o)) as [(ts & Ht & Ht') | [Ht Ht']]; rewrite Ht, Ht'; cbn [res_bind opt_bind].
     2:{ destruct (us_chars s); exact I. }
     destruct (num_view (r_nt o)) as [(nt & Hq & Hq') | [Hq Hq']]; rewrite Hq, Hq'; cbn [res_bind opt_bind].
@@ -310,7 +323,8 @@ Proof.
       destruct ((1 <=? ts) && (ts <=? 32)); cbn [opt_bind]; [|exact V].
       destruct ((1 <=? nt) && (nt <=? 32)); cbn [opt_bind]; exact V.
   - exact I.
-  - destruct (r_delim o) as [|n|s|x|]; cbn [get_delim res_bind]; try exact I.
+  - destruct (get_delim (r_delim o) (Some default_delimiter)) as [s| |] eqn:EG; cbn [res_bind]; try exact I.
+    2:{ destruct (r_delim o); discriminate EG. }
     destruct (num_view (r_ts o)) as [(ts & Ht & Ht') | [Ht Ht']]; rewrite Ht; cbn [res_bind]; [|exact I].
     destruct (num_view (r_nt o)) as [(nt & Hq & Hq') | [Hq Hq']]; rewrite Hq; cbn [res_bind]; [|exact I].
     destruct (pad_view (r_pad o)) as [(p & Hp & Hp') | [Hp Hp']]; rewrite Hp; cbn [res_bind]; [|exact I].
@@ -320,35 +334,35 @@ Qed.
 
 (** * StorageLayout::new against the documents *)
 Theorem new_correct dbg e r :
-  raw_wf r = true -> cfg_determined e r = true -> known_c11_cfg e r = false ->
+  raw_wf r = true -> cfg_determined e r = true ->
   new_agrees (new dbg e r) (parse e r).
 Proof.
-  intros W D Kn. destruct r as [|o|l|].
-  - destruct e; try (vm_compute; reflexivity); try exact I. discriminate Kn.
+  intros W D. destruct r as [|o|l|].
+  - destruct e; try (vm_compute; reflexivity); exact I.
   - destruct e.
     + apply new_obj_0002.
     + apply new_obj_0003.
     + apply new_obj_0004.
     + now apply new_obj_0006.
     + now apply new_obj_0007.
-  - unfold known_c11_cfg in Kn. cbn [c11_cfg_array] in Kn. now rewrite !orb_true_r in Kn.
+  - exact I.
   - exact I.
 Qed.
 
 Lemma new_accepts_iff_allowed dbg e r :
-  raw_wf r = true -> cfg_determined e r = true -> known_c11_cfg e r = false ->
+  raw_wf r = true -> cfg_determined e r = true ->
   (exists c, new dbg e r = Ok c) <-> allowed e r = true.
 Proof.
-  intros W D Kn. pose proof (new_correct dbg e r W D Kn) as H. unfold allowed, new_agrees in *.
+  intros W D. pose proof (new_correct dbg e r W D) as H. unfold allowed, new_agrees in *.
   destruct (new dbg e r) as [c| |], (parse e r) as [sc|]; try contradiction.
   - split; [reflexivity|eauto].
   - split; [intros [c Hc]; discriminate|discriminate].
 Qed.
 
 Lemma new_never_panics dbg e r :
-  raw_wf r = true -> cfg_determined e r = true -> known_c11_cfg e r = false -> new dbg e r <> Panic.
+  raw_wf r = true -> cfg_determined e r = true -> new dbg e r <> Panic.
 Proof.
-  intros W D Kn. pose proof (new_correct dbg e r W D Kn) as H. unfold new_agrees in H.
+  intros W D. pose proof (new_correct dbg e r W D) as H. unfold new_agrees in H.
   destruct (new dbg e r); [discriminate|discriminate|]. destruct (parse e r); contradiction.
 Qed.
 
@@ -379,13 +393,9 @@ Proof.
   - destruct (Layout.parse_obj e o) as [c0| |] eqn:P; cbn [res_bind]; try discriminate.
     intros V. pose proof (validate_same _ _ _ V) as ->. split; [unfold cfg_ok; now rewrite V|].
     now apply parse_obj_ext in P.
-  - destruct (seq_to_obj e l) as [o|]; [|discriminate].
-    destruct (Layout.parse_obj e o) as [c0| |] eqn:P; cbn [res_bind]; try discriminate.
-    intros V. pose proof (validate_same _ _ _ V) as ->. split; [unfold cfg_ok; now rewrite V|].
-    now apply parse_obj_ext in P.
 Qed.
 
-(** * the repaired classes, for EVERY form of the configuration (object, array, none) *)
+(** * for EVERY form of the configuration (object, array, none, not JSON) *)
 (** the usize product can no longer overflow (fix d1aca14): debug and release builds agree *)
 Lemma validate_dbg_irrelevant c : validate false c = validate true c.
 Proof.
@@ -400,8 +410,6 @@ Lemma new_dbg_irrelevant e r : new false e r = new true e r.
 Proof.
   unfold new. destruct r as [|o|l|]; try reflexivity.
   - destruct (Layout.parse_obj e o); cbn [res_bind]; try reflexivity. apply validate_dbg_irrelevant.
-  - destruct (seq_to_obj e l) as [o|]; [|reflexivity].
-    destruct (Layout.parse_obj e o); cbn [res_bind]; try reflexivity. apply validate_dbg_irrelevant.
 Qed.
 
 Lemma new_total dbg e r : new dbg e r <> Panic.
@@ -435,9 +443,7 @@ Proof.
       end; discriminate. }
     unfold new. destruct r as [|o|l|]; try discriminate.
     - destruct e; discriminate.
-    - destruct (Layout.parse_obj e o) eqn:E; cbn [res_bind]; [apply V|discriminate|now apply P in E].
-    - destruct (seq_to_obj e l) as [o|]; [|discriminate].
-      destruct (Layout.parse_obj e o) eqn:E; cbn [res_bind]; [apply V|discriminate|now apply P in E]. }
+    - destruct (Layout.parse_obj e o) eqn:E; cbn [res_bind]; [apply V|discriminate|now apply P in E]. }
   destruct dbg; [exact G|]. now rewrite new_dbg_irrelevant.
 Qed.
 
